@@ -56,6 +56,8 @@ func runC01(w *World) *Result {
 	ReentrantRule(w, r, "R-C01-reentrant")
 	r.Rule("R-C01-prec", "operator levels of the expression parser follow Go's precedence; all levels left-associative; every operator on one level", 8)
 	PrecRule(w, r, "R-C01-prec")
+	r.Rule("R-C01-tokenop", "a statement that is rewritten into an operation (x op= v) carries the operator of its token on every way out of its handler", 1)
+	TokenOperatorRule(w, r, "R-C01-tokenop")
 	r.Rule("R-C01-dispatch", "every constructed node kind has its handler", 10)
 	DispatchRule(w, r, "R-C01-dispatch")
 	return r
